@@ -178,7 +178,6 @@ class C02(Cfg):
                 pend = {"node": [], "edge": [], "ndel": [], "edel": []}
             elif k:
                 fail("malformed", op); break
-            if res: break
         return res
 
     # ------------------------------------------------------------------ the statement, per difference
